@@ -63,17 +63,30 @@ def run_cases(specs, parallel=True):
     return [_one(s) for s in specs]
 
 
-def make(pid, algos, quick_per_algo=12, thorough_per_algo=150, forces=None, salt=0):
+def make(pid, algos, quick_per_algo=12, thorough_per_algo=150, forces=None, salt=0, long_runs=()):
     forces = forces or [None]
 
     def budget(tier):
         return {"quick": quick_per_algo, "thorough": thorough_per_algo}[tier]
+
+    # extreme but documented configurations met by every algorithm on every run: a box far from the origin (cells reach
+    # float resolution after a few dozen levels), a tiny box, and parameters that make the tree deep quickly
+    DEEP = {"Zooming": {"nu": 1e3, "rho": 0.9}, "DOO": {"n": 150, "delta_c": 1.0, "delta_g": 0.5, "delta_kind": "zero"}}
 
     def specs(seed, n, extra_salt=0):
         out = []
         for a in algos:
             for i in range(n):
                 out.append((seed + salt + extra_salt, i, a, forces[i % len(forces)]))
+            if forces == [None]:
+                for j, bm in enumerate(["far", "tiny", "far"]):
+                    f = {"bmode": bm}
+                    if a in DEEP and j != 1:
+                        f["params"] = dict(DEEP[a]); f["T"] = 150
+                    out.append((seed + salt + extra_salt, 300000 + j, a, f))
+        # a few runs in the thousands of rounds (what only shows once a cell holds > 1000 rewards, a counter passes 2^10, ...)
+        for j, (a, f) in enumerate(long_runs):
+            out.append((seed + salt + extra_salt, 400000 + j, a, dict(f)))
         return out
 
     def explore(tier, seed, n):
